@@ -10,13 +10,14 @@ From Chalk Require Import Text.Syntax22 Text.TokEq Text.Print Text.Parse.
 
 Definition ty_start (t : tok) : bool :=
   match t with
-  | VAR _ _ | SELF | KW (Kscalar _) | KW Kstr | ID _ | P PLParen | P PAmp | P PStar | P PLBracket | P PBang => true
+  | VAR _ _ | SELF | KW (Kscalar _) | KW Kstr | KW Kfor | KW Kunsafe | KW Kfn | KW Kdyn | ID _
+  | P PLParen | P PAmp | P PStar | P PLBracket | P PBang => true
   | _ => false
   end.
 
-Lemma ty_head (t : aty) : exists tk r, p_ty t = tk :: r /\ ty_start tk = true.
+Lemma ty_head k (t : aty) : exists tk r, p_ty k t = tk :: r /\ ty_start tk = true.
 Proof.
-  destruct t as [v|n args|s|ts|m l t|m t|t|t c| |]; cbn.
+  destruct t as [v|n args|s|ts|m l t|m t|t|t c| | |nb u va args ret|bs l]; cbn.
   - destruct v; cbn; eauto.
   - eauto.
   - eauto.
@@ -27,11 +28,9 @@ Proof.
   - eauto.
   - eauto.
   - eauto.
+  - destruct nb; [destruct u|]; cbn; eauto.
+  - destruct bs; cbn; eauto.
 Qed.
-
-Lemma lt_head (l : alt) : exists tk, p_lt l = [tk] /\ starts_lt (tk :: nil) = true /\
-                                   forall r, starts_lt (tk :: r) = true /\ parse_lt (tk :: r) = Some (l, r).
-Proof. destruct l as [[d i]| |]; cbn; eauto 6. Qed.
 
 Lemma parse_lt_print l rest : parse_lt (p_lt l ++ rest) = Some (l, rest).
 Proof. destruct l as [[d i]| |]; reflexivity. Qed.
@@ -39,25 +38,27 @@ Proof. destruct l as [[d i]| |]; reflexivity. Qed.
 Lemma starts_lt_print l rest : starts_lt (p_lt l ++ rest) = true.
 Proof. destruct l as [[d i]| |]; reflexivity. Qed.
 
-Ltac ty_heads t rest :=
+Ltac ty_heads k t rest :=
   let tk := fresh "tk" in let r := fresh "r" in let E := fresh "E" in let Hs := fresh "Hs" in
-  destruct (ty_head t) as [tk [r [E Hs]]]; rewrite E; cbn [app];
+  destruct (ty_head k t) as [tk [r [E Hs]]]; rewrite E; cbn [app];
   destruct tk as [[]| | | | | | | |[]]; try discriminate Hs; try reflexivity.
 
-Lemma starts_lt_ty t rest : starts_lt (p_ty t ++ rest) = false.
-Proof. ty_heads t rest. Qed.
-Lemma peek_ty p t rest : p <> PLParen -> p <> PAmp -> p <> PStar -> p <> PLBracket -> p <> PBang -> peek p (p_ty t ++ rest) = false.
-Proof. intros H1 H2 H3 H4 H5. ty_heads t rest; destruct p; try reflexivity; congruence. Qed.
-Lemma peek_kw_ty k t rest : (forall s, k <> Kscalar s) -> k <> Kstr -> peek_kw k (p_ty t ++ rest) = false.
+Lemma starts_lt_ty k t rest : starts_lt (p_ty k t ++ rest) = false.
+Proof. ty_heads k t rest. Qed.
+Lemma peek_ty p k t rest : p <> PLParen -> p <> PAmp -> p <> PStar -> p <> PLBracket -> p <> PBang -> peek p (p_ty k t ++ rest) = false.
+Proof. intros H1 H2 H3 H4 H5. ty_heads k t rest; destruct p; try reflexivity; congruence. Qed.
+Lemma peek_kw_ty kk k t rest :
+  (forall s, kk <> Kscalar s) -> kk <> Kstr -> kk <> Kfor -> kk <> Kunsafe -> kk <> Kfn -> kk <> Kdyn ->
+  peek_kw kk (p_ty k t ++ rest) = false.
 Proof.
-  intros H Hstr. destruct (ty_head t) as [tk [r [E Hs]]]. rewrite E. cbn [app].
+  intros H H1 H2 H3 H4 H5. destruct (ty_head k t) as [tk [r [E Hs]]]. rewrite E. cbn [app].
   destruct tk as [k'| | | | | | | |[]]; try discriminate Hs; try reflexivity.
-  destruct k'; try discriminate Hs; cbn; destruct k; try reflexivity; try congruence; exfalso; eapply H; eauto.
+  destruct k'; try discriminate Hs; cbn; destruct kk; try reflexivity; try congruence; exfalso; eapply H; eauto.
 Qed.
 
-Lemma not_num_ty A t rest (X : N -> list tok -> A) (Y : A) :
-  match p_ty t ++ rest with NUM n :: r => X n r | _ => Y end = Y.
-Proof. ty_heads t rest. Qed.
+Lemma not_num_ty A k t rest (X : N -> list tok -> A) (Y : A) :
+  match p_ty k t ++ rest with NUM n :: r => X n r | _ => Y end = Y.
+Proof. ty_heads k t rest. Qed.
 
 Lemma parse_konst_print c rest : parse_konst (p_konst c ++ rest) = Some (c, rest).
 Proof. destruct c as [[d i]|n]; reflexivity. Qed.
@@ -79,124 +80,15 @@ Lemma sep_more (x y : list tok) l tail :
   sep_by comma (x :: y :: l) ++ tail = x ++ P PComma :: (sep_by comma (y :: l) ++ tail).
 Proof. rewrite sep_by_cons2. unfold comma at 1. rewrite <- !app_assoc. reflexivity. Qed.
 
-(* ------------------------------------------------------------------------------------- *)
-(** ** Fuel *)
-
-Fixpoint need_ty (t : aty) : nat :=
-  match t with
-  | TVar _ | TScalar _ => 1
-  | TAdt _ args => S (list_sum (map (fun a => S (need_garg a)) args))
-  | TTuple ts => S (list_sum (map (fun t => S (need_ty t)) ts))
-  | TRef _ _ t | TRaw _ t | TSlice t | TArray t _ => S (need_ty t)
-  | TStr | TNever => 1
-  end
-with need_garg (a : agarg) : nat :=
-  match a with GTy t => need_ty t | _ => 0 end.
-
-Definition need_gargs (args : list agarg) : nat := list_sum (map (fun a => S (need_garg a)) args).
-Definition need_tys (ts : list aty) : nat := list_sum (map (fun t => S (need_ty t)) ts).
-
 Definition no_lt (rest : list tok) : Prop := peek PLt rest = false.
 
 Ltac norm := cbn [app]; repeat (rewrite <- app_assoc; cbn [app]).
-Ltac rp := do 3 cbn [obind peek peek_kw punct_eqb punct_code kw_code Nat.eqb tl fst snd].
-Ltac arith := unfold aty, agarg, aqwc, awc, alt, aitem in *; cbn [length] in *; lia.
+Ltac rp := do 3 cbn [obind peek peek_kw punct_eqb punct_code kw_code Nat.eqb tl fst snd andb].
+Ltac arith := unfold aty, agarg, aqwc, awc, alt, aitem, adbound in *; cbn [length] in *; lia.
 Ltac rew_map H := let E := fresh "E" in pose proof H as E; cbn [map] in E; rewrite E; clear E.
 
-Lemma types_roundtrip n :
-  (forall t rest, need_ty t <= n -> no_lt rest -> parse_ty n (p_ty t ++ rest) = Some (t, rest)) /\
-  (forall args rest, args <> [] -> need_gargs args <= n ->
-     parse_gargs n (sep_by comma (map p_garg args) ++ P PGt :: rest) = Some (args, rest)) /\
-  (forall ts rest, ts <> [] -> need_tys ts <= n ->
-     parse_tys n (sep_by comma (map p_ty ts) ++ P PRParen :: rest) = Some (ts, rest)).
-Proof.
-  induction n as [|n [IHt [IHg IHs]]].
-  { repeat split.
-    - intros t rest H. destruct t; cbn in H; lia.
-    - intros [|a r] rest H H'; [congruence|]. unfold need_gargs in H'. cbn in H'. lia.
-    - intros [|a r] rest H H'; [congruence|]. unfold need_tys in H'. cbn in H'. lia. }
-  repeat split.
-  - (* types *)
-    intros t rest Hn Hr. destruct t as [v|nm args|s|ts|m l t|m t|t|t c| |]; cbn [need_ty] in Hn.
-    + destruct v; reflexivity.
-    + cbn [p_ty parse_ty app]. fold need_gargs in Hn. destruct args as [|a r].
-      * cbn [map angle app]. unfold no_lt in Hr. rewrite Hr. reflexivity.
-      * unfold angle. cbn [map]. change (map p_garg (a :: r)) with (p_garg a :: map p_garg r).
-        cbn [app peek punct_eqb punct_code Nat.eqb tl].
-        rewrite <- app_assoc. cbn [app].
-        assert (Hn' : need_gargs (a :: r) <= n) by (unfold need_gargs; lia).
-        rew_map (IHg (a :: r) rest ltac:(congruence) Hn'). reflexivity.
-    + reflexivity.
-    + fold need_tys in Hn. cbn [p_ty]. destruct ts as [|t1 [|t2 r]].
-      * reflexivity.
-      * norm. cbn [parse_ty]. rewrite peek_ty by congruence.
-        unfold need_tys in Hn. cbn in Hn.
-        rewrite IHt; [|lia|reflexivity]. reflexivity.
-      * cbn [map]. norm. rewrite sep_more. cbn [parse_ty].
-        rewrite peek_ty by congruence.
-        unfold need_tys in Hn. cbn [map list_sum fold_right] in Hn.
-        rewrite IHt; [|lia|reflexivity]. rp.
-        assert (Hp : peek PRParen (sep_by comma (p_ty t2 :: map p_ty r) ++ P PRParen :: rest) = false).
-        { destruct r; cbn [map]; [rewrite sep_one|rewrite sep_more]; apply peek_ty; congruence. }
-        rewrite Hp.
-        assert (Hn' : need_tys (t2 :: r) <= n) by (unfold need_tys, list_sum in *; cbn [map fold_right] in *; lia).
-        rew_map (IHs (t2 :: r) rest ltac:(congruence) Hn'). reflexivity.
-    + cbn [p_ty]. norm. cbn [parse_ty]. rewrite parse_lt_print. cbn [obind].
-      destruct m.
-      * cbn [app peek_kw kw_code Nat.eqb tl]. rewrite IHt; [reflexivity|lia|exact Hr].
-      * cbn [app]. rewrite peek_kw_ty by (try intros s; congruence).
-        rewrite IHt; [reflexivity|lia|exact Hr].
-    + cbn [p_ty]. norm. cbn [parse_ty]. destruct m; rp.
-      * rewrite IHt; [reflexivity|lia|exact Hr].
-      * rewrite IHt; [reflexivity|lia|exact Hr].
-    + cbn [p_ty]. norm. cbn [parse_ty]. rewrite IHt; [|lia|reflexivity]. rp. reflexivity.
-    + cbn [p_ty]. norm. cbn [parse_ty]. rewrite IHt; [|lia|reflexivity]. rp.
-      rewrite parse_konst_print. rp. reflexivity.
-    + reflexivity.
-    + reflexivity.
-  - (* generic arguments *)
-    intros args rest Hne Hn. destruct args as [|a r]; [congruence|].
-    unfold need_gargs in Hn. cbn [map list_sum fold_right] in Hn.
-    cbn [map]. cbn [parse_gargs].
-    destruct r as [|b r']; cbn [map]; [rewrite sep_one|rewrite sep_more];
-      destruct a as [t|l|nn|[]]; cbn [p_garg need_garg] in *.
-    + rewrite starts_lt_ty, not_num_ty. rewrite IHt; [|lia|reflexivity]. reflexivity.
-    + rewrite starts_lt_print, parse_lt_print. reflexivity.
-    + reflexivity.
-    + rewrite starts_lt_ty, not_num_ty. rewrite IHt; [|lia|reflexivity]. rp.
-      assert (Hn' : need_gargs (b :: r') <= n) by (unfold need_gargs, list_sum in *; cbn [map fold_right] in *; lia).
-      rew_map (IHg (b :: r') rest ltac:(congruence) Hn'). reflexivity.
-    + rewrite starts_lt_print, parse_lt_print. rp.
-      assert (Hn' : need_gargs (b :: r') <= n) by (unfold need_gargs, list_sum in *; cbn [map fold_right] in *; lia).
-      rew_map (IHg (b :: r') rest ltac:(congruence) Hn'). reflexivity.
-    + cbn [app starts_lt]. rp.
-      assert (Hn' : need_gargs (b :: r') <= n) by (unfold need_gargs, list_sum in *; cbn [map fold_right] in *; lia).
-      rew_map (IHg (b :: r') rest ltac:(congruence) Hn'). reflexivity.
-  - (* tuple elements *)
-    intros ts rest Hne Hn. destruct ts as [|t r]; [congruence|].
-    unfold need_tys in Hn. cbn [map list_sum fold_right] in Hn.
-    cbn [map]. cbn [parse_tys].
-    destruct r as [|b r']; cbn [map]; [rewrite sep_one|rewrite sep_more].
-    + rewrite IHt; [|lia|reflexivity]. reflexivity.
-    + rewrite IHt; [|lia|reflexivity]. rp.
-      assert (Hn' : need_tys (b :: r') <= n) by (unfold need_tys, list_sum in *; cbn [map fold_right] in *; lia).
-      rew_map (IHs (b :: r') rest ltac:(congruence) Hn'). reflexivity.
-Qed.
-
-Lemma parse_ty_print n t rest : need_ty t <= n -> no_lt rest -> parse_ty n (p_ty t ++ rest) = Some (t, rest).
-Proof. apply types_roundtrip. Qed.
-
-Lemma parse_args_print n args rest :
-  need_gargs args <= n -> no_lt rest -> parse_args n (p_args args ++ rest) = Some (args, rest).
-Proof.
-  intros Hn Hr. unfold parse_args, p_args, angle. destruct args as [|a r].
-  - cbn [map app]. unfold no_lt in Hr. rewrite Hr. reflexivity.
-  - cbn [map]. norm. rp.
-    rew_map (proj1 (proj2 (types_roundtrip n)) (a :: r) rest ltac:(congruence) Hn). reflexivity.
-Qed.
-
 (* ------------------------------------------------------------------------------------- *)
-(** ** Binders, where clauses *)
+(** ** Binders *)
 
 Lemma p_binder_names_cons D i k r : p_binder_names D i (k :: r) = btok k D i :: p_binder_names D (S i) r.
 Proof. reflexivity. Qed.
@@ -232,6 +124,208 @@ Proof.
     norm. rp. rewrite <- Ep. apply parse_binder_names_print; [congruence|exact Hn].
 Qed.
 
+Lemma all_lt_repeat nb : all_lt (repeat KLt nb) = true.
+Proof. induction nb; cbn; auto. Qed.
+
+(* ------------------------------------------------------------------------------------- *)
+(** ** Fuel and types *)
+
+Fixpoint need_ty (t : aty) : nat :=
+  match t with
+  | TVar _ | TScalar _ => 1
+  | TAdt _ args => S (list_sum (map (fun a => S (need_garg a)) args))
+  | TTuple ts => S (list_sum (map (fun t => S (need_ty t)) ts))
+  | TRef _ _ t | TRaw _ t | TSlice t | TArray t _ => S (need_ty t)
+  | TStr | TNever => 1
+  | TFn nb _ _ args ret => S (nb + S (list_sum (map (fun t => S (need_ty t)) args)) + need_ty ret)
+  | TDyn bs _ => S (list_sum (map need_dbound bs))
+  end
+with need_garg (a : agarg) : nat :=
+  match a with GTy t => need_ty t | _ => 0 end
+with need_dbound (b : adbound) : nat :=
+  match b with DB ks _ args => S (length ks + list_sum (map (fun a => S (need_garg a)) args)) end.
+
+Definition need_gargs (args : list agarg) : nat := list_sum (map (fun a => S (need_garg a)) args).
+Definition need_tys (ts : list aty) : nat := list_sum (map (fun t => S (need_ty t)) ts).
+Definition need_dbounds (bs : list adbound) : nat := list_sum (map need_dbound bs).
+
+Definition vdots (v : bool) : list (list tok) := if v then [[P PDots]] else [].
+
+Lemma fn_tail_print (pf : list tok -> option ((list aty * bool) * list tok)) (pt : list tok -> option (aty * list tok))
+      nb (u v : bool) (args : list aty) (ret : aty) (toks_args toks_ret rest : list tok) :
+  pf (toks_args ++ P PRParen :: P PArrow :: toks_ret ++ rest) = Some ((args, v), P PArrow :: toks_ret ++ rest) ->
+  pt (toks_ret ++ rest) = Some (ret, rest) ->
+  fn_tail pf pt nb ((if u then [KW Kunsafe] else []) ++ [KW Kfn; P PLParen] ++ toks_args ++ [P PRParen; P PArrow] ++ toks_ret ++ rest)
+  = Some (TFn nb u v args ret, rest).
+Proof.
+  intros Hf Ht. unfold fn_tail. destruct u; norm; rp; rewrite Hf; rp; rewrite Ht; reflexivity.
+Qed.
+
+Lemma types_roundtrip n :
+  (forall t k rest, need_ty t <= n -> no_lt rest -> parse_ty n k (p_ty k t ++ rest) = Some (t, rest)) /\
+  (forall args k rest, args <> [] -> need_gargs args <= n ->
+     parse_gargs n k (sep_by comma (map (p_garg k) args) ++ P PGt :: rest) = Some (args, rest)) /\
+  (forall ts k rest, ts <> [] -> need_tys ts <= n ->
+     parse_tys n k (sep_by comma (map (p_ty k) ts) ++ P PRParen :: rest) = Some (ts, rest)) /\
+  (forall args v k rest, S (need_tys args) <= n ->
+     parse_fnargs n k (sep_by comma (map (p_ty k) args ++ vdots v) ++ P PRParen :: rest) = Some ((args, v), rest)) /\
+  (forall bs k rest, bs <> [] -> need_dbounds bs <= n -> starts_lt rest = true ->
+     parse_dbounds n k (concat (map (fun b => p_dbound k b ++ [P PPlus]) bs) ++ rest) = Some (bs, rest)).
+Proof.
+  induction n as [|n [IHt [IHg [IHs [IHf IHd]]]]].
+  { repeat split.
+    - intros t k rest H. destruct t; cbn in H; lia.
+    - intros [|a r] k rest H H'; [congruence|]. unfold need_gargs in H'. cbn in H'. lia.
+    - intros [|a r] k rest H H'; [congruence|]. unfold need_tys in H'. cbn in H'. lia.
+    - intros args v k rest H. lia.
+    - intros [|[ks tr args] r] k rest H H'; [congruence|]. unfold need_dbounds in H'. cbn in H'. lia. }
+  repeat split.
+  - (* types *)
+    intros t k rest Hn Hr. destruct t as [v|nm args|s|ts|m l t|m t|t|t c| | |nb u va args ret|bs l]; cbn [need_ty] in Hn.
+    + destruct v; reflexivity.
+    + cbn [p_ty parse_ty app]. fold need_gargs in Hn. destruct args as [|a r].
+      * cbn [map angle app]. unfold no_lt in Hr. rewrite Hr. reflexivity.
+      * unfold angle. cbn [map].
+        cbn [app peek punct_eqb punct_code Nat.eqb tl].
+        rewrite <- app_assoc. cbn [app].
+        assert (Hn' : need_gargs (a :: r) <= n) by (unfold need_gargs; lia).
+        rew_map (IHg (a :: r) k rest ltac:(congruence) Hn'). reflexivity.
+    + reflexivity.
+    + fold need_tys in Hn. cbn [p_ty]. destruct ts as [|t1 [|t2 r]].
+      * reflexivity.
+      * norm. cbn [parse_ty]. rewrite peek_ty by congruence.
+        unfold need_tys in Hn. cbn in Hn.
+        rewrite IHt; [|lia|reflexivity]. reflexivity.
+      * cbn [map]. norm. rewrite sep_more. cbn [parse_ty].
+        rewrite peek_ty by congruence.
+        unfold need_tys in Hn. cbn [map list_sum fold_right] in Hn.
+        rewrite IHt; [|lia|reflexivity]. rp.
+        assert (Hp : peek PRParen (sep_by comma (p_ty k t2 :: map (p_ty k) r) ++ P PRParen :: rest) = false).
+        { destruct r; cbn [map]; [rewrite sep_one|rewrite sep_more]; apply peek_ty; congruence. }
+        rewrite Hp.
+        assert (Hn' : need_tys (t2 :: r) <= n) by (unfold need_tys, list_sum in *; cbn [map fold_right] in *; lia).
+        rew_map (IHs (t2 :: r) k rest ltac:(congruence) Hn'). reflexivity.
+    + cbn [p_ty]. norm. cbn [parse_ty]. rewrite parse_lt_print. cbn [obind].
+      destruct m.
+      * cbn [app peek_kw kw_code Nat.eqb tl]. rewrite IHt; [reflexivity|lia|exact Hr].
+      * cbn [app]. rewrite peek_kw_ty by (try intros s; congruence).
+        rewrite IHt; [reflexivity|lia|exact Hr].
+    + cbn [p_ty]. norm. cbn [parse_ty]. destruct m; rp.
+      * rewrite IHt; [reflexivity|lia|exact Hr].
+      * rewrite IHt; [reflexivity|lia|exact Hr].
+    + cbn [p_ty]. norm. cbn [parse_ty]. rewrite IHt; [|lia|reflexivity]. rp. reflexivity.
+    + cbn [p_ty]. norm. cbn [parse_ty]. rewrite IHt; [|lia|reflexivity]. rp.
+      rewrite parse_konst_print. rp. reflexivity.
+    + reflexivity.
+    + reflexivity.
+    + (* fn pointers *)
+      fold need_tys in Hn.
+      assert (Hf : parse_fnargs n (S k) (sep_by comma (map (p_ty (S k)) args ++ vdots va) ++ P PRParen :: P PArrow :: p_ty (S k) ret ++ rest)
+                   = Some ((args, va), P PArrow :: p_ty (S k) ret ++ rest)) by (apply IHf; unfold need_tys in *; arith).
+      assert (Ht : parse_ty n (S k) (p_ty (S k) ret ++ rest) = Some (ret, rest)) by (apply IHt; [unfold need_tys in *; arith|exact Hr]).
+      pose proof (fn_tail_print (parse_fnargs n (S k)) (parse_ty n (S k)) nb u va args ret _ _ rest Hf Ht) as Htail.
+      cbn [p_ty]. fold (vdots va). destruct nb as [|nb'].
+      * destruct u; norm; cbn [app] in Htail; cbn [parse_ty]; exact Htail.
+      * norm. cbn [parse_ty].
+        rewrite parse_params_print; [|rewrite repeat_length; lia|destruct u; reflexivity].
+        cbn [obind]. rewrite all_lt_repeat, repeat_length. cbn [repeat]. cbn [app] in Htail. exact Htail.
+    + (* dyn *)
+      fold need_dbounds in Hn. cbn [p_ty]. destruct bs as [|b r].
+      * norm. cbn [parse_ty]. rp. rewrite parse_lt_print. reflexivity.
+      * norm. cbn [parse_ty].
+        assert (Hp : peek PPlus (concat (map (fun b0 => p_dbound (S (S k)) b0 ++ [P PPlus]) (b :: r)) ++ p_lt l ++ rest) = false).
+        { cbn [map concat]. destruct b as [ks tr args]. cbn [p_dbound]. destruct ks; norm; reflexivity. }
+        rewrite Hp.
+        rewrite (IHd (b :: r) (S (S k)) (p_lt l ++ rest)); [|congruence|unfold need_dbounds in *; arith|apply starts_lt_print].
+        cbn [obind]. rewrite parse_lt_print. reflexivity.
+  - (* generic arguments *)
+    intros args k rest Hne Hn. destruct args as [|a r]; [congruence|].
+    unfold need_gargs in Hn. cbn [map list_sum fold_right] in Hn.
+    cbn [map]. cbn [parse_gargs].
+    destruct r as [|b r']; cbn [map]; [rewrite sep_one|rewrite sep_more];
+      destruct a as [t|l|nn|[]]; cbn [p_garg need_garg] in *.
+    + rewrite starts_lt_ty, not_num_ty. rewrite IHt; [|lia|reflexivity]. reflexivity.
+    + rewrite starts_lt_print, parse_lt_print. reflexivity.
+    + reflexivity.
+    + rewrite starts_lt_ty, not_num_ty. rewrite IHt; [|lia|reflexivity]. rp.
+      assert (Hn' : need_gargs (b :: r') <= n) by (unfold need_gargs, list_sum in *; cbn [map fold_right] in *; lia).
+      rew_map (IHg (b :: r') k rest ltac:(congruence) Hn'). reflexivity.
+    + rewrite starts_lt_print, parse_lt_print. rp.
+      assert (Hn' : need_gargs (b :: r') <= n) by (unfold need_gargs, list_sum in *; cbn [map fold_right] in *; lia).
+      rew_map (IHg (b :: r') k rest ltac:(congruence) Hn'). reflexivity.
+    + cbn [app starts_lt]. rp.
+      assert (Hn' : need_gargs (b :: r') <= n) by (unfold need_gargs, list_sum in *; cbn [map fold_right] in *; lia).
+      rew_map (IHg (b :: r') k rest ltac:(congruence) Hn'). reflexivity.
+  - (* tuple elements *)
+    intros ts k rest Hne Hn. destruct ts as [|t r]; [congruence|].
+    unfold need_tys in Hn. cbn [map list_sum fold_right] in Hn.
+    cbn [map]. cbn [parse_tys].
+    destruct r as [|b r']; cbn [map]; [rewrite sep_one|rewrite sep_more].
+    + rewrite IHt; [|lia|reflexivity]. reflexivity.
+    + rewrite IHt; [|lia|reflexivity]. rp.
+      assert (Hn' : need_tys (b :: r') <= n) by (unfold need_tys, list_sum in *; cbn [map fold_right] in *; lia).
+      rew_map (IHs (b :: r') k rest ltac:(congruence) Hn'). reflexivity.
+  - (* fn pointer arguments *)
+    intros args v k rest Hn. unfold need_tys, list_sum in Hn. cbn [parse_fnargs].
+    destruct args as [|a r].
+    + destruct v; reflexivity.
+    + cbn [map fold_right] in Hn. cbn [map app].
+      assert (Ha : forall tail, parse_ty n k (p_ty k a ++ tail) = Some (a, tail) \/ peek PLt tail = true).
+      { intros tail. destruct (peek PLt tail) eqn:E; [now right|left]. apply IHt; [lia|exact E]. }
+      destruct r as [|b r'].
+      * destruct v; cbn [map app vdots].
+        -- rewrite sep_more. rewrite !peek_ty by congruence.
+           destruct (Ha (P PComma :: sep_by comma [[P PDots]] ++ P PRParen :: rest)) as [E|E]; [|discriminate E].
+           rewrite E. rp. destruct n as [|n']; [lia|]. reflexivity.
+        -- rewrite sep_one. rewrite !peek_ty by congruence.
+           destruct (Ha (P PRParen :: rest)) as [E|E]; [|discriminate E]. rewrite E. reflexivity.
+      * cbn [map app]. rewrite sep_more. rewrite !peek_ty by congruence.
+        destruct (Ha (P PComma :: sep_by comma (p_ty k b :: map (p_ty k) r' ++ vdots v) ++ P PRParen :: rest)) as [E|E]; [|discriminate E].
+        rewrite E. rp.
+        assert (Hn' : S (need_tys (b :: r')) <= n) by (unfold need_tys, list_sum in *; cbn [map fold_right] in *; arith).
+        pose proof (IHf (b :: r') v k rest Hn') as E2. cbn [map app] in E2. rewrite E2. reflexivity.
+  - (* dyn bounds *)
+    intros bs k rest Hne Hn Hs. destruct bs as [|[ks tr args] r]; [congruence|].
+    unfold need_dbounds, list_sum in Hn. cbn [map fold_right need_dbound] in Hn. fold need_gargs in Hn.
+    cbn [map concat p_dbound]. cbn [parse_dbounds].
+    assert (Hargs : forall tail, peek PLt tail = false ->
+              (if peek PLt (angle (map (p_garg k) args) ++ tail) then parse_gargs n k (tl (angle (map (p_garg k) args) ++ tail)) else Some ([], angle (map (p_garg k) args) ++ tail))
+              = Some (args, tail)).
+    { intros tail Ht. destruct args as [|a ar].
+      - cbn [map angle app]. rewrite Ht. reflexivity.
+      - unfold angle. cbn [map]. norm. rp.
+        assert (Hn' : need_gargs (a :: ar) <= n) by (unfold need_gargs in *; arith).
+        rew_map (IHg (a :: ar) k tail ltac:(congruence) Hn'). reflexivity. }
+    assert (Hrest : forall tail0, tail0 = concat (map (fun b => p_dbound k b ++ [P PPlus]) r) ++ rest ->
+              (if starts_lt tail0 then Some ([DB ks tr args], tail0)
+               else ' (l, r3) <- parse_dbounds n k tail0;; Some (DB ks tr args :: l, r3)) = Some (DB ks tr args :: r, rest)).
+    { intros tail0 ->. destruct r as [|b2 r2].
+      - cbn [map concat app]. rewrite Hs. reflexivity.
+      - assert (E : starts_lt (concat (map (fun b => p_dbound k b ++ [P PPlus]) (b2 :: r2)) ++ rest) = false).
+        { cbn [map concat]. destruct b2 as [ks2 tr2 args2]. cbn [p_dbound]. destruct ks2; norm; reflexivity. }
+        rewrite E. rewrite (IHd (b2 :: r2) k rest); [reflexivity|congruence| |exact Hs].
+        unfold need_dbounds, list_sum. cbn [map fold_right] in *. arith. }
+    destruct ks as [|k1 kr].
+    + norm. rp. rewrite Hargs by reflexivity. rp. apply Hrest. reflexivity.
+    + norm. rp. rewrite parse_params_print; [|lia|reflexivity]. cbn [obind].
+      rewrite Hargs by reflexivity. rp. apply Hrest. reflexivity.
+Qed.
+
+Lemma parse_ty_print n k t rest : need_ty t <= n -> no_lt rest -> parse_ty n k (p_ty k t ++ rest) = Some (t, rest).
+Proof. apply types_roundtrip. Qed.
+
+Lemma parse_args_print n k args rest :
+  need_gargs args <= n -> no_lt rest -> parse_args n k (p_args k args ++ rest) = Some (args, rest).
+Proof.
+  intros Hn Hr. unfold parse_args, p_args, angle. destruct args as [|a r].
+  - cbn [map app]. unfold no_lt in Hr. rewrite Hr. reflexivity.
+  - cbn [map]. norm. rp.
+    rew_map (proj1 (proj2 (types_roundtrip n)) (a :: r) k rest ltac:(congruence) Hn). reflexivity.
+Qed.
+
+(* ------------------------------------------------------------------------------------- *)
+(** ** Where clauses *)
+
 Definition need_wc (w : awc) : nat :=
   match w with
   | WImpl self _ args => need_ty self + need_gargs args
@@ -239,8 +333,8 @@ Definition need_wc (w : awc) : nat :=
   | WTyOut t _ => need_ty t
   end.
 
-Lemma parse_wc_print n w rest :
-  need_wc w <= n -> no_lt rest -> parse_wc n (p_wc w ++ rest) = Some (w, rest).
+Lemma parse_wc_print n k w rest :
+  need_wc w <= n -> no_lt rest -> parse_wc n k (p_wc k w ++ rest) = Some (w, rest).
 Proof.
   intros Hn Hr. destruct w as [self tr args|a b|t l]; cbn [need_wc p_wc] in *; unfold parse_wc; norm.
   - rewrite starts_lt_ty. rewrite parse_ty_print; [|arith|reflexivity]. rp.
@@ -250,12 +344,12 @@ Proof.
     rewrite starts_lt_print, parse_lt_print. reflexivity.
 Qed.
 
-Lemma peek_kw_wc k w rest : k = Kforall \/ k = Kwhere -> peek_kw k (p_wc w ++ rest) = false.
+Lemma peek_kw_wc kk k w rest : kk = Kforall \/ kk = Kwhere -> peek_kw kk (p_wc k w ++ rest) = false.
 Proof.
   intros Hk. destruct w as [self tr args|a b|t l]; cbn [p_wc]; norm.
-  - apply peek_kw_ty; [intros s|]; destruct Hk; subst; congruence.
+  - apply peek_kw_ty; try intros s; destruct Hk; subst; congruence.
   - destruct a as [[d i]| |]; destruct Hk; subst; reflexivity.
-  - apply peek_kw_ty; [intros s|]; destruct Hk; subst; congruence.
+  - apply peek_kw_ty; try intros s; destruct Hk; subst; congruence.
 Qed.
 
 Definition need_qwc (q : aqwc) : nat := length (fst q) + need_wc (snd q).
@@ -303,13 +397,6 @@ Qed.
 
 (* ------------------------------------------------------------------------------------- *)
 (** ** Attributes, fields, items *)
-
-Lemma parse_attrs_attr b k rest :
-  parse_attrs (attr b k ++ rest) = let '(l, r) := parse_attrs rest in ((if b then [k] else []) ++ l, r).
-Proof. destruct b; cbn; destruct (parse_attrs rest); reflexivity. Qed.
-
-Lemma parse_attrs_kw k rest : parse_attrs (KW k :: rest) = ([], KW k :: rest).
-Proof. reflexivity. Qed.
 
 Definition need_fields (fs : list aty) : nat := list_sum (map (fun t => S (need_ty t)) fs).
 
@@ -361,17 +448,14 @@ Definition need_item (it : aitem) : nat :=
 Lemma kws_eqb_refl l : kws_eqb l l = true.
 Proof. induction l; cbn; auto. unfold kw_eqb at 1. now rewrite Nat.eqb_refl. Qed.
 
-Lemma struct_attrs fl rest :
-  parse_attrs (attr fl.(sf_upstream) Kupstream ++ attr fl.(sf_fundamental) Kfundamental
-               ++ attr fl.(sf_phantom_data) Kphantom_data ++ attr fl.(sf_one_zst) Kone_zst ++ KW Kstruct :: rest)
-  = (sflags_kws fl, KW Kstruct :: rest).
-Proof. destruct fl as [[] [] [] []]; reflexivity. Qed.
+Lemma struct_attrs fl rest : parse_attrs (sattrs fl ++ KW Kstruct :: rest) = (sflags_kws fl, KW Kstruct :: rest).
+Proof. destruct fl as [[] [] [] [] [] []]; reflexivity. Qed.
 
 Lemma enum_attrs fl rest : parse_attrs (sattrs fl ++ KW Kenum :: rest) = (sflags_kws fl, KW Kenum :: rest).
-Proof. destruct fl as [[] [] [] []]; reflexivity. Qed.
+Proof. destruct fl as [[] [] [] [] [] []]; reflexivity. Qed.
 
 Lemma sflags_recover fl : sflags_of (sflags_kws fl) = fl /\ kws_eqb (sflags_kws fl) (sflags_kws fl) = true.
-Proof. destruct fl as [[] [] [] []]; split; reflexivity. Qed.
+Proof. destruct fl as [[] [] [] [] [] []]; split; reflexivity. Qed.
 
 Lemma trait_attrs fl rest :
   parse_attrs (attr fl.(tf_auto) Kauto ++ attr fl.(tf_marker) Kmarker ++ attr fl.(tf_upstream) Kupstream
@@ -432,7 +516,7 @@ Qed.
 Lemma parse_impl_print n ps up pos tr args self wcs rest :
   need_item (IImpl ps up pos tr args self wcs) <= n ->
   parse_impl n (kws_of [(up, Kupstream)])
-    (p_params 1 0 ps ++ (if pos then [] else [P PBang]) ++ [ID tr] ++ p_args args ++ [KW Kfor] ++ p_ty self
+    (p_params 1 0 ps ++ (if pos then [] else [P PBang]) ++ [ID tr] ++ p_args 1 args ++ [KW Kfor] ++ p_ty 1 self
      ++ p_where 2 wcs ++ [P PLBrace; P PRBrace] ++ rest)
   = Some (IImpl ps up pos tr args self wcs, rest).
 Proof.
@@ -467,8 +551,8 @@ Definition need_ast (a : ast) : nat := list_sum (map (fun it => S (need_item it)
 Lemma p_item_cons it : exists tk r, p_item it = tk :: r.
 Proof.
   destruct it as [name ps fl fs wcs|name ps fl vs wcs|name ps fl wcs|ps up pos tr args self wcs]; cbn [p_item].
-  - destruct fl as [[] [] [] []]; cbn; eauto.
-  - destruct fl as [[] [] [] []]; cbn; eauto.
+  - destruct fl as [[] [] [] [] [] []]; cbn; eauto.
+  - destruct fl as [[] [] [] [] [] []]; cbn; eauto.
   - destruct fl as [[] [] [] [] [] [] []]; cbn; eauto.
   - destruct up; cbn; eauto.
 Qed.
